@@ -17,6 +17,7 @@ import (
 	"testing"
 
 	"github.com/privacybydesign/gabi/big"
+	"github.com/privacybydesign/gabi/gabikeys"
 	"github.com/privacybydesign/gabi/internal/vfh"
 	"github.com/privacybydesign/gabi/internal/vfk"
 	"pgregory.net/rapid"
@@ -111,8 +112,12 @@ func TestVF_C04(t *testing.T) {
 	defer rec.Flush()
 	rec.Check(func(rt *rapid.T) {
 		drawLibSeed(t, rt)
-		variant := rapid.SampledFrom([]string{"plain", "plain", "random-blind", "nonrev"}).Draw(rt, "variant")
+		variant := rapid.SampledFrom([]string{"plain", "plain", "plain", "random-blind", "random-blind", "nonrev", "nonrev", "keyshare"}).Draw(rt, "variant")
 		kp := drawKey(rt, variant == "nonrev", true)
+		if variant == "keyshare" {
+			kp = getKey("k1024", rapid.IntRange(0, 2).Draw(rt, "kskey")) // the keyshare server only knows 1024/2048-bit parameters
+		}
+		kssSecret := genSecret(rt, "kss")
 		kmax := 6
 		if kp.Bits == 1024 {
 			kmax = rec.N(3, 5)
@@ -145,6 +150,13 @@ func TestVF_C04(t *testing.T) {
 		switch variant {
 		case "plain":
 			c.cred, err = issueDirect(kp, secret, attrs)
+		case "keyshare":
+			// the issuer signs the total secret; the holder keeps its own part and the server's P
+			c.cred, err = issueDirect(kp, new(big.Int).Add(secret, kssSecret), attrs)
+			if err == nil {
+				c.cred.Attributes = append([]*big.Int{new(big.Int).Set(secret)}, c.cred.Attributes[1:]...)
+				c.cred.Signature.KeyshareP = keyshareP(kssSecret, kp.Pk)
+			}
 		case "random-blind":
 			var blind []int
 			for i := 0; i < k; i++ {
@@ -212,7 +224,18 @@ func TestVF_C04(t *testing.T) {
 				}
 				var proof *ProofD
 				if psig := vfh.Guard(func() {
-					pl, e := ProofBuilderList{b}.BuildProofList(ctx, nonce, issig)
+					var pl ProofList
+					var e error
+					if variant == "keyshare" {
+						bl := ProofBuilderList{b}
+						var run *kssRun
+						run, e = kssPrepare(bl, map[string]*gabikeys.PublicKey{kp.Pk.Issuer: kp.Pk}, kssSecret, ctx, nonce, issig)
+						if e == nil {
+							pl, e = run.kssFinish(bl)
+						}
+					} else {
+						pl, e = ProofBuilderList{b}.BuildProofList(ctx, nonce, issig)
+					}
 					err = e
 					if e == nil {
 						proof = pl[0].(*ProofD)
